@@ -310,9 +310,9 @@ func zzC06Post(k *zzC06K, con zzC06Construct, env *zzC06Env, thread *Thread) {
 	zzAssert(env.rejOK, "C06.vm.mutators_rejected")
 	zzAssert(env.sameOK, "C06.vm.unchanged_by_rejected_mutators")
 	zzAssert(thread.CallStackDepth() == 0, "C06.vm.stack_restored")
-	// known finding: UNPACK with too many values leaves its iterator un-Done
-	tooMany := con.targets > 0 && k.n > con.targets
-	zzAssertExcept(*k.counter() == env.c0, "C06.vm.unlocked", tooMany)
+	// (UNPACK with too many values used to leave its iterator un-Done: fixed in /repo, see
+	// known_findings.json "fixed"; the assertion is unconditional again)
+	zzAssert(*k.counter() == env.c0, "C06.vm.unlocked")
 }
 
 //verif:unwind 200
